@@ -189,17 +189,15 @@ class Program:
                     ren[cands[0]] = n
         if not ren:
             return {}
-        # the old names must be free everywhere, the new names must not collide with each other
-        used = set()
-        for m in self.modules.values():
-            for node in ast.walk(m.tree):
-                if isinstance(node, ast.Name):
-                    used.add(node.id)
-                elif isinstance(node, ast.Attribute):
-                    used.add(node.attr)
-                elif isinstance(node, (ast.FunctionDef, ast.ClassDef)):
-                    used.add(node.name)
-        ren = {new: old for new, old in ren.items() if old not in used}
+        # Every occurrence of a NEW name is renamed back, so the new name must denote one symbol only: it is defined
+        # in exactly one scope now and did not exist anywhere when the anchors were recorded.  (The OLD name may
+        # still be in use elsewhere - e.g. another class with a private method of the same name - that is no conflict.)
+        defs_now: dict = {}
+        for scope, syms in have.items():
+            for n in syms:
+                defs_now.setdefault(n, []).append(scope)
+        recorded = {n for scope, syms in want.items() for n in syms}
+        ren = {new: old for new, old in ren.items() if len(defs_now.get(new, [])) == 1 and new not in recorded}
         for m in self.modules.values():
             for node in ast.walk(m.tree):
                 if isinstance(node, ast.Name) and node.id in ren:
